@@ -375,13 +375,16 @@ func (ex *Exec) havocTarget(env *Env, st *State, m *ModTarget) {
 			}
 			st.set(k, FreshVar("hv_"+k, s))
 		}
+	case ModAllMem:
+		for _, k := range ex.memKeys(env, m) {
+			st.set(k.key, FreshVar("hv_"+k.key, k.sort))
+		}
 	case ModAllOfType:
 		for _, k := range ex.typeKeys(env, m) {
 			st.set(k.key, FreshVar("hv_"+k.key, k.sort))
 		}
 	case ModField:
-		base := ex.eval(env, m.Base)
-		loc := ex.fieldLoc(base, m.Field)
+		loc := ex.fieldLocE(env, m.Base, m.Field)
 		st.store(loc, freshVal(loc.T, "mod_"+m.Field))
 	case ModAllFields:
 		base := ex.eval(env, m.Base)
@@ -400,6 +403,40 @@ func (ex *Exec) havocTarget(env *Env, st *State, m *ModTarget) {
 			panic(unsupported("modifies target " + m.Src))
 		}
 	}
+}
+
+// fieldLocE: location of baseExpr.field where baseExpr is a pointer or itself a field of an addressable struct.
+func (ex *Exec) fieldLocE(env *Env, baseExpr Expr, field string) *Loc {
+	var loc *Loc
+	if sel, ok := baseExpr.(*ESel); ok {
+		// try pointer value first
+		bv := ex.eval(env, baseExpr)
+		if _, isPtr := bv.T.Underlying().(*types.Pointer); isPtr {
+			loc = ex.locOf(bv)
+		} else {
+			loc = ex.fieldLocE(env, sel.X, sel.Sel)
+		}
+	} else {
+		bv := ex.eval(env, baseExpr)
+		if _, isPtr := bv.T.Underlying().(*types.Pointer); !isPtr {
+			panic(unsupported("field of non-addressable value in modifies"))
+		}
+		loc = ex.locOf(bv)
+	}
+	return subFieldLoc(loc, field)
+}
+
+func subFieldLoc(loc *Loc, field string) *Loc {
+	lo := layoutOf(loc.T)
+	for _, f := range lo.Fields {
+		if f.Name == field {
+			nl := *loc
+			nl.Off += f.Off
+			nl.T = f.T
+			return &nl
+		}
+	}
+	panic(fmt.Sprintf("no field %s in %s", field, loc.T))
 }
 
 func (ex *Exec) fieldLoc(base Val, field string) *Loc {
@@ -674,4 +711,14 @@ func (ex *Exec) typeKeys(env *Env, m *ModTarget) []keySort {
 	}
 	sfail("no field %s in %s", m.Field, m.TypeName)
 	return nil
+}
+
+func (ex *Exec) memKeys(env *Env, m *ModTarget) []keySort {
+	t := ex.ld.resolveType(env.pkg, m.TypeName)
+	lo := layoutOf(t)
+	var out []keySort
+	for j, lf := range lo.Leaves {
+		out = append(out, keySort{memKey(t, j, lf), ArrS(IntS, ArrS(BVS(64), lf.S))})
+	}
+	return out
 }
